@@ -13,7 +13,7 @@ domain's own Fourier-Motzkin entailment (lin.py).
 """
 import os
 import sys
-from lin import Lin, Cons, _L
+from lin import Lin, Cons, _L, normalize
 from absval import (IntVal, PtrVal, CondVal, FloatVal, AggVal, TOP, Top, NULL,
                     Obj, State, mk_const)
 from irlib import AnalysisBroken, V
@@ -61,6 +61,7 @@ class Interp:
         self.call_hook = None     # f(interp, state, inst, callee_name, args) -> None | list[(state, ret)]
         self.access_hook = None   # f(interp, state, inst, ptr, size, kind)
         self.store_hook = None    # f(interp, state, inst, ptr, value)
+        self.cmp_log = None       # differences compared inside the loop body being analysed (predicate shapes)
         self.ghost_keys = ()      # ghost entries that must be loop-invariant
         self.functions_seen = set()
         self.unknown_calls = {}   # external callee -> first call site (treated as unknown effects)
@@ -245,7 +246,7 @@ class Interp:
             syms.update(l.t.keys())
         c = cone(st.cons.items, syms)
         small = [l for l in c if all(abs(x) < (1 << 31) for x in [l.c] + list(l.t.values()))]
-        return ' ; known: ' + ', '.join('%r<=0' % l for l in small[:14])
+        return ' ; known: ' + ', '.join('%r<=0' % l for l in small[:int(os.environ.get('VERIF_EXPLAIN', '14'))])
 
     def describe_obj(self, st, oid):
         o = st.objs.get(oid)
@@ -888,6 +889,10 @@ class Interp:
                 truth = (pred == 'ne') == (y.const() == 0)
                 return c if truth else CondVal('not', c)
         c = CondVal('cmp', pred, a, b, ka, kb)
+        if self.cmp_log is not None and len(self.cmp_log) < 400:
+            f_ = self.cmp_forms(st, pred, a, b)
+            if f_ is not None and (f_[0].t or f_[1].t):
+                self.cmp_log.append(f_[0] - f_[1])
         d = self.decide(st, c)
         if d is not None:
             return CondVal('const', d)
@@ -1559,6 +1564,7 @@ class Interp:
         partners = []         # constraints met in the body that relate head symbols to outer symbols
         harvested = False
         stsyms = st.cons.syms()
+        entry_objs = set(st.objs.keys())
         for it in range(MAX_HOUDINI + 4):
             H, newsyms = self.build_head(st, fn, L, phis, inits, modified, smashed, signs)
             if templ is None:
@@ -1568,16 +1574,22 @@ class Interp:
             for c in cands:
                 H.cons.add(c)
             self.recording += 1
+            saved_log = self.cmp_log
+            self.cmp_log = [] if not harvested else None
             try:
                 body_rets = []
                 latches, exits = self.run_region(fn, L, [(H, frm)], body_rets)
             finally:
                 self.recording -= 1
+                pass_log = self.cmp_log
+                self.cmp_log = saved_log
             w = H.written
             # ('smashvar', obj): a variable-offset store; the cells it could
             # overlap were dropped (and recorded individually) at the store
-            new_mod = set(k for k in w if k[0] not in ('smash', 'smashvar')) - modified
-            new_smash = set(k[1] for k in w if k[0] == 'smash') - smashed
+            # cells of objects created inside the loop (fresh allocations, callee frames) are not part of the
+            # loop-head state
+            new_mod = set(k for k in w if k[0] not in ('smash', 'smashvar') and k[0] in entry_objs) - modified
+            new_smash = set(k[1] for k in w if k[0] == 'smash' and (k[1] == '*' or k[1] in entry_objs)) - smashed
             if new_mod or new_smash:
                 modified |= new_mod
                 smashed |= new_smash
@@ -1610,6 +1622,17 @@ class Interp:
                         for dd in (d_, -d_):
                             c2 = dd.subst({k: Lin.sym(v) for k, v in hs.items()})
                             found[c2.key()] = c2
+                # comparisons evaluated in the body (also those that were decided and left no constraint)
+                for d_ in (pass_log or []):
+                    if len(d_.t) > 4 or not any(sy in hs for sy in d_.t):
+                        continue
+                    if any((isinstance(sy, str) and sy not in hs and sy not in stsyms) for sy in d_.t):
+                        continue
+                    for dd in (d_, -d_):
+                        c2 = normalize(dd.subst({k: Lin.sym(v) for k, v in hs.items()}))
+                        found[c2.key()] = c2
+                if os.environ.get('VERIF_DEBUG_LOOPS'):
+                    print('HARVEST %s/%s: %s' % (fn.name, header.name, [repr(x) for x in found.values()][:30]))
                 if found:
                     partners = sorted(found.values(), key=lambda c_: (len(c_.t), str(c_.key())))[:150]
                     templ = None
@@ -1622,7 +1645,7 @@ class Interp:
                 for wk in bad:
                     if wk not in flipped:
                         flipped.add(wk)
-                        if wk[0] == 'pstride':
+                        if wk[0] in ('pstride', 'objcell'):
                             signs[wk] = True
                         else:
                             cur = [n for n in newsyms if self.what_key(n[2]) == wk][0][4]
@@ -1782,10 +1805,19 @@ class Interp:
                 x = H.fresh_int(old.w, signed, 'cell')
                 H.mem[k] = x
                 newsyms.append(((x.s if signed else x.u), init, ('cell', k), old.w, signed))
+            elif isinstance(old, PtrVal) and (old.obj is None or signs.get(('objcell', k))):
+                # a pointer cell that is re-pointed to another block inside the loop (e.g. a container that
+                # reallocates): summary object whose size is a loop-head symbol; may be null when it was null
+                sz = H.fresh_int(64, False, 'blocksize')
+                eo = st.objs.get(old.obj) if old.obj is not None else None
+                init = Lin(0) if old.obj is None else (eo.size if eo is not None else None)
+                no = H.new_obj('heap', sz.u, 'loopblock', {'desc': 'block held in a pointer cell across loop iterations'})
+                H.mem[k] = PtrVal(no.id, Lin(0), None, None, bool(old.obj is not None and old.nonnull))
+                newsyms.append((sz.u, init, ('osize', k), 64, False))
             elif isinstance(old, PtrVal) and old.obj is not None:
                 x = H.fresh_int(64, True, 'cellp')
                 H.mem[k] = PtrVal(old.obj, x.s, old.lo, old.hi, old.nonnull)
-                newsyms.append((x.s, old.off, ('pcell', k), 64, True))
+                newsyms.append((x.s, old.off, ('pcell', k, old.obj), 64, True))
         for oid in smashed:
             for k in list(H.mem):
                 if oid == '*':
@@ -1876,10 +1908,22 @@ class Interp:
                     l = T.as_s(nv) if signed else T.as_u(nv)
                     if l is None:
                         bad.append(self.what_key(what))
+            elif what[0] == 'osize':
+                nv = T.mem.get(what[1])
+                if isinstance(nv, PtrVal):
+                    if nv.is_null:
+                        l = Lin(0)
+                    elif nv.off.is_const() and nv.off.c == 0:
+                        o_ = T.objs.get(nv.obj)
+                        if o_ is not None and o_.size is not None:
+                            l = o_.size
             else:
                 nv = T.mem.get(what[1])
                 if isinstance(nv, PtrVal) and nv.obj is not None:
-                    l = nv.off
+                    if nv.obj != what[2]:
+                        bad.append(('objcell', what[1]))
+                    else:
+                        l = nv.off
             if l is None:
                 missing.append(sym)
             else:
@@ -2040,6 +2084,11 @@ def ext_strmcrc8(interp, st, i, args):
     return [(st, None)]
 
 
+def ext_is_constant(interp, st, i, args):
+    """llvm.is.constant (__builtin_constant_p): either answer is allowed, both are explored"""
+    return [(st, CondVal('unknown'))]
+
+
 def ext_noreturn(interp, st, i, args):
     st.bottom = True
     return []
@@ -2052,7 +2101,7 @@ def ext_pure(interp, st, i, args):
 def ext_malloc(interp, st, i, args):
     n = args[0]
     size = st.force_u(n) if isinstance(n, IntVal) else None
-    o = st.new_obj('heap', size, 'heap', {'desc': 'heap block allocated at %s' % i.where()})
+    o = st.new_obj('heap', size, 'heap', {'desc': 'heap block allocated by %s' % (i.fn.srcname or i.fn.name)})
     return [(st, PtrVal(o.id, Lin(0), None, None, False))]
 
 
@@ -2060,7 +2109,7 @@ def ext_new(interp, st, i, args):
     """operator new never returns null"""
     n = args[0]
     size = st.force_u(n) if isinstance(n, IntVal) else None
-    o = st.new_obj('heap', size, 'heap', {'desc': 'heap block allocated at %s' % i.where()})
+    o = st.new_obj('heap', size, 'heap', {'desc': 'heap block allocated by %s' % (i.fn.srcname or i.fn.name)})
     return [(st, PtrVal(o.id, Lin(0), None, None, True))]
 
 
@@ -2092,6 +2141,6 @@ PREFIX_EXTERNALS = [
     ('llvm.stacksave', ext_pure), ('llvm.stackrestore', ext_pure),
     ('llvm.assume', ext_pure), ('llvm.expect', None),
     ('llvm.va_', ext_pure), ('llvm.dbg.', ext_pure), ('llvm.lifetime.', ext_pure), ('llvm.donothing', ext_pure),
-    ('llvm.prefetch', ext_pure),
+    ('llvm.prefetch', ext_pure), ('llvm.is.constant', ext_is_constant),
 ]
 PREFIX_EXTERNALS = [(p, f) for p, f in PREFIX_EXTERNALS if f is not None]
